@@ -1046,11 +1046,17 @@ fn resolve_text_macro_usage<T: AsRef<Path>, U: AsRef<Path>>(
                 if let Some(value) = arg_map.get(&text) {
                     replaced.push_str(*value);
                 } else {
-                    replaced.push_str(
-                        &text
-                            .replace("``", "")          // Argument substitution.
+                    // An ordinary string literal is left as written: `` and `" have
+                    // no special meaning inside it.
+                    let text = if text.starts_with('"') {
+                        text
+                    } else {
+                        text.replace("``", "")          // Argument substitution.
                             .replace("`\\`\"", "\\\"")  // Escaped backslash.
                             .replace("`\"", "\"")       // Escaped quote.
+                    };
+                    replaced.push_str(
+                        &text
                             .replace("\\\n", "\n")      // Line continuation (Unix).
                             .replace("\\\r\n", "\r\n")  // Line continuation (Windows).
                             .replace("\\\r", "\r"),     // Line continuation (old Mac).
